@@ -126,3 +126,32 @@ COMPUTE = {"BE": be, "ES": es, "FR": fr, "MC": fr, "IT": it, "SM": it, "FI": fi,
            "PT": mod97_98, "RS": mod97_98, "ME": mod97_98, "MK": mod97_98, "SI": mod97_98, "TL": mod97_98, "BA": mod97_98,
            "MR": mod97_97, "TN": mod97_97}
 VERDICT = {"CZ": cz, "SK": cz, "IS": is_}
+
+
+# Where in the BBAN the fields lie that the 22 national algorithms read and write (0-based half-open ranges).  The published
+# algorithms are defined over these positions of the account number, independently of how the bundled table labels them; the table's
+# ranges for these fields must agree (R06-fields).  Pinned to the reviewed tree (the sandbox has no access to the national
+# publications): a later change of one of these ranges in the data is reported, the ranges themselves are not claimed to be
+# re-derived here.  Only the fields an algorithm accepts (and the check-digit field it fills) are compared.
+FIELD_POSITIONS = {'BA': {'account_code': (6, 14), 'bank_code': (0, 3), 'branch_code': (3, 6), 'national_checksum_digits': (14, 16)},
+ 'BE': {'account_code': (3, 10), 'bank_code': (0, 3), 'national_checksum_digits': (10, 12)},
+ 'CZ': {'account_code': (10, 20), 'bank_code': (0, 4), 'branch_code': (4, 10)},
+ 'EE': {'account_code': (4, 15), 'bank_code': (0, 2), 'branch_code': (2, 4), 'national_checksum_digits': (15, 16)},
+ 'ES': {'account_code': (10, 20), 'bank_code': (0, 4), 'branch_code': (4, 8), 'national_checksum_digits': (8, 10)},
+ 'FI': {'account_code': (3, 13), 'bank_code': (0, 3), 'national_checksum_digits': (13, 14)},
+ 'FR': {'account_code': (10, 21), 'bank_code': (0, 5), 'branch_code': (5, 10), 'national_checksum_digits': (21, 23)},
+ 'IS': {'account_code': (6, 12), 'account_holder_id': (12, 22), 'account_type': (4, 6), 'bank_code': (0, 2), 'branch_code': (2, 4)},
+ 'IT': {'account_code': (11, 23), 'bank_code': (1, 6), 'branch_code': (6, 11), 'national_checksum_digits': (0, 1)},
+ 'MC': {'account_code': (10, 21), 'bank_code': (0, 5), 'branch_code': (5, 10), 'national_checksum_digits': (21, 23)},
+ 'ME': {'account_code': (3, 16), 'bank_code': (0, 3), 'national_checksum_digits': (16, 18)},
+ 'MK': {'account_code': (3, 13), 'bank_code': (0, 3), 'national_checksum_digits': (13, 15)},
+ 'MR': {'account_code': (10, 21), 'bank_code': (0, 5), 'branch_code': (5, 10), 'national_checksum_digits': (21, 23)},
+ 'NO': {'account_code': (4, 10), 'bank_code': (0, 4), 'national_checksum_digits': (10, 11)},
+ 'PL': {'account_code': (8, 24), 'bank_code': (0, 3), 'branch_code': (3, 7), 'national_checksum_digits': (7, 8)},
+ 'PT': {'account_code': (8, 19), 'bank_code': (0, 4), 'branch_code': (4, 8), 'national_checksum_digits': (19, 21)},
+ 'RS': {'account_code': (3, 16), 'bank_code': (0, 3), 'national_checksum_digits': (16, 18)},
+ 'SI': {'account_code': (5, 13), 'bank_code': (0, 2), 'branch_code': (2, 5), 'national_checksum_digits': (13, 15)},
+ 'SK': {'account_code': (10, 20), 'bank_code': (0, 4), 'branch_code': (4, 10)},
+ 'SM': {'account_code': (11, 23), 'bank_code': (1, 6), 'branch_code': (6, 11), 'national_checksum_digits': (0, 1)},
+ 'TL': {'account_code': (3, 17), 'bank_code': (0, 3), 'national_checksum_digits': (17, 19)},
+ 'TN': {'account_code': (5, 18), 'bank_code': (0, 2), 'branch_code': (2, 5), 'national_checksum_digits': (18, 20)}}
